@@ -689,55 +689,6 @@ Corollary C05_rising_from_any : forall ch h,
   mout ch h OPollRise = Some (pending_rise (Z.min ch 15) h).
 Proof. intros ch h Hw. rewrite C05_rising_any, pending_rise_g_spec by exact Hw. reflexivity. Qed.
 
-(** ** the capacity hypothesis mattered for the formulation through [gate_spec] *)
-
-(** 33 distinct note-ons (notes 0..32), then note-offs for the first 32 (notes 0..31):
-    the 33rd note-on was dropped by the full buffer, so the receiver holds nothing, its
-    gate is low and the falling flag is set; positionally, note 32 is still outstanding *)
-Definition capacity_history : list mop :=
-  map (fun n => OMsg (MNoteOn 0 (Z.of_nat n) 100)) (seq 0 33)
-  ++ map (fun n => OMsg (MNoteOff 0 (Z.of_nat n) 0)) (seq 0 32).
-
-Lemma Some_inj {A} (a b : A) : Some a = Some b -> a = b.
-Proof. intros H. inversion H. reflexivity. Qed.
-
-Lemma capacity_witness :
-  r_gate (mrun 0 capacity_history) = false /\
-  r_held (mrun 0 capacity_history) = [] /\
-  mout 0 capacity_history OPollFall = Some true /\
-  held_spec 0 capacity_history = [32] /\
-  gate_spec 0 capacity_history = true /\
-  pending_fall 0 capacity_history = false /\
-  pending_fall_g 0 capacity_history = true /\
-  ~ within_capacity 0 capacity_history.
-Proof.
-  assert (Hout : mout 0 capacity_history OPollFall = Some true) by (vm_compute; reflexivity).
-  split; [vm_compute; reflexivity|].
-  split; [vm_compute; reflexivity|].
-  split; [exact Hout|].
-  split; [vm_compute; reflexivity|].
-  split; [vm_compute; reflexivity|].
-  split; [vm_compute; reflexivity|].
-  split; [exact (Some_inj _ _ (eq_trans (eq_sym (C05_falling_any 0 _)) Hout))|].
-  intros Hw. specialize (Hw 33%nat). apply Z.leb_le in Hw. vm_compute in Hw. discriminate Hw.
-Qed.
-
-(** the same for [rising_gate()]: after a [rising_gate()] call, one more note-on finds the
-    real gate low and raises an edge, although positionally a note was still outstanding *)
-Lemma capacity_witness_rise :
-  let h := capacity_history ++ [OPollRise; OMsg (MNoteOn 0 40 100)] in
-  mout 0 h OPollRise = Some true /\
-  pending_rise 0 h = false /\
-  pending_rise_g 0 h = true.
-Proof.
-  cbv zeta.
-  assert (Hout : mout 0 (capacity_history ++ [OPollRise; OMsg (MNoteOn 0 40 100)]) OPollRise
-                 = Some true) by (vm_compute; reflexivity).
-  split; [exact Hout|].
-  split; [vm_compute; reflexivity|].
-  exact (Some_inj _ _ (eq_trans (eq_sym (C05_rising_any 0 _)) Hout)).
-Qed.
-
 (** the retrigger mode of the receiver is the one last set, in every history *)
 Theorem retrig_any : forall ch h, r_retrig (mrun ch h) = retrig_spec_rev (rev h).
 Proof. intros ch h. exact (ig_retrig _ _ _ (invg_run ch h)). Qed.
